@@ -10,6 +10,7 @@ from vlib import Verdict
 PID = "C06"
 PROPS = [("theories/Locks/Props.v", "Locks.Props")]
 AREAS = ["theories/Locks"]
+BACKEND = os.environ.get("C06_BACKEND", "mock")
 KEYS = ["k1", "k2", "k3", "k4", "k5"]
 
 
@@ -40,9 +41,11 @@ def gen_program(rng, idx):
             if rng.random() < 0.2:
                 st["v"] = "fu_saved"
             prog.append(st)
-        elif x < 0.42:
+        elif x < 0.42 and not agg:
             prog.append({"t": "t1", "op": rng.choice(["set", "del"]), "k": k, "v": "n-" + k})
-        elif x < 0.50:
+        elif x < 0.50 and not agg:
+            # (buffer writes are kept out of aggressive-locking attempts: a caller that cancels an attempt also
+            # discards the statement's buffered writes, which this driver cannot do)
             prog.append({"t": "t1", "op": "insert", "k": k, "v": "i-" + k})
             if pess1:
                 prog.append({"t": "t1", "op": "lock", "ks": [k], "wait": -1})
@@ -72,7 +75,7 @@ def gen_program(rng, idx):
     prog.append({"t": "t1", "op": rng.choice(["commit", "commit", "rollback"])})
     if not t2_done:
         prog.append({"t": "t2", "op": rng.choice(["commit", "rollback"])})
-    return {"id": f"g{idx}", "backend": "unistore", "splits": splits, "preload": preload, "batch_size": rng.choice([0, 0, 24]),
+    return {"id": f"g{idx}", "backend": BACKEND, "splits": splits, "preload": preload, "batch_size": rng.choice([0, 0, 24]),
             "txn": {"mode": "2pc", "ops": []}, "txns": txns, "program": prog, "keys": KEYS, "black_from": -1}
 
 
@@ -81,7 +84,7 @@ def directed():
     out = []
     T = lambda m="2pc": {"t1": {"mode": m, "pessimistic": True, "ops": []}, "t2": {"mode": "2pc", "pessimistic": True, "ops": []}}
     def sc(i, prog, pre=("k1", "k2", "k3"), splits=(), mode="2pc"):
-        return {"id": f"d{i}", "backend": "unistore", "splits": list(splits), "preload": [{"k": k, "v": "old-" + k} for k in pre], "batch_size": 0,
+        return {"id": f"d{i}", "backend": BACKEND, "splits": list(splits), "preload": [{"k": k, "v": "old-" + k} for k in pre], "batch_size": 0,
                 "txn": {"mode": "2pc", "ops": []}, "txns": T(mode), "program": prog, "keys": KEYS, "black_from": -1}
     B = [{"t": "t2", "op": "begin"}, {"t": "t1", "op": "begin"}]
     out.append(sc(0, B + [{"t": "t2", "op": "lock", "ks": ["k3"], "wait": -1}, {"t": "t1", "op": "lock", "ks": ["k1", "k2", "k3"], "wait": -1}, {"t": "t1", "op": "rollback"}, {"t": "t2", "op": "rollback"}], splits=("k2", "k3")))
